@@ -100,4 +100,12 @@ CHECKS = {
         "design_ref": "DESIGN.md section 3, C08",
         "note": "Ambiguous textual spellings (quotes, blanks, hex, True/None) are not generated. Calibration entry point for invalid keys is exercised in C10.",
     },
+    "C05": {
+        "technique": "property-based testing: generated parameter spaces (product / sequential / custom, scalar and vector parameters, colliding names, numpy expressions, disabled parameters) against itertools reference enumerators; echo probes encode received values so that label-based selection is checkable",
+        "text": "Every generated space is run on the sequential and the dask (synchronous) path; the multiset (and for the sequential path the order) of states the probes received must equal "
+                "the reference space and, for each reference run, the result entry selected by that run's labels must hold that run's encoding. Custom tables are generated in txt/csv/npy with "
+                "surrounding columns and optional column_range. Exploration.",
+        "design_ref": "DESIGN.md section 3, C05",
+        "note": "Known finding K1 (sequential mode + dask + >=2 parameters) is excluded from the generator and probed separately. The dask path's single metadata run is subtracted.",
+    },
 }
